@@ -189,3 +189,59 @@ func Point(label string) {
 	}
 	s.point(&pendingOp{kind: opPoint, label: label})
 }
+
+// Pool replaces sync.Pool. Outside a controlled execution it is a plain sync.Pool. Under the scheduler it is a
+// deterministic LIFO free list whose Get and Put are scheduling points; Put is followed by a second point, so
+// that what the caller still does with the object it has just handed back can interleave with the next owner.
+// The free list is emptied at the first use in every execution (pools are package-level variables).
+type Pool struct {
+	New   func() interface{}
+	real  sync.Pool
+	items []interface{}
+	owner *Sched
+}
+
+func (p *Pool) enter(s *Sched) {
+	if p.owner != s {
+		p.owner, p.items = s, nil
+		s.pools = append(s.pools, p)
+	}
+}
+
+// Get takes an object from the pool (or makes a new one).
+func (p *Pool) Get() interface{} {
+	s := active.Load()
+	if s == nil || s.running == nil {
+		if v := p.real.Get(); v != nil {
+			return v
+		}
+		if p.New != nil {
+			return p.New()
+		}
+		return nil
+	}
+	s.point(&pendingOp{kind: opPoint, label: "pool.Get"})
+	p.enter(s)
+	if n := len(p.items); n > 0 {
+		v := p.items[n-1]
+		p.items = p.items[:n-1]
+		return v
+	}
+	if p.New != nil {
+		return p.New()
+	}
+	return nil
+}
+
+// Put hands an object back.
+func (p *Pool) Put(x interface{}) {
+	s := active.Load()
+	if s == nil || s.running == nil {
+		p.real.Put(x)
+		return
+	}
+	s.point(&pendingOp{kind: opPoint, label: "pool.Put"})
+	p.enter(s)
+	p.items = append(p.items, x)
+	s.point(&pendingOp{kind: opPoint, label: "pool.Put-done"})
+}
